@@ -2,6 +2,9 @@
 
 mod hint;
 
+#[cfg(googlefonts_fontations_verif)]
+pub(crate) use hint::verif_hooks as hint_verif_hooks;
+
 use super::{GlyphHMetrics, OutlinePen};
 use hint::{HintParams, HintState, HintingSink};
 use raw::FontRef;
